@@ -311,7 +311,7 @@ def mk_handler(kind: str, hid: str, fn: Any, l: dict, **extra: Any) -> Any:
                                         cancellation_backoff=None, cancellation_timeout=None, cancellation_polling=None)
     if kind == "timer":
         return K.handlers.TimerHandler(**common, **res, requires_finalizer=None, initial_delay=None,
-                                       sharp=extra.get("sharp"), idle=None, interval=sec(extra.get("interval")))
+                                       sharp=extra.get("sharp"), idle=sec(extra.get("idle")), interval=sec(extra.get("interval")))
     raise ValueError(kind)
 
 
@@ -399,11 +399,35 @@ def oracle_attempt(l: dict, default_errors: str, default_backoff: int, a: dict) 
     return bad
 
 
+F2_SHAPE = "re-invoked on a record that does not continue the handler's last attempt"
+F3_SHAPE = "timed-out-before-first-invocation"
+F4_SHAPE = "failed-timer-respawned"
+
+
+def continues(prev: dict | None, e: dict) -> bool:
+    """Did the execution/cycle `e` start from the record the handler's previous attempt produced
+    (from a fresh record, for the first one)? Observed, not taken from the scenario."""
+    seen = e.get("seen")
+    if prev is None:
+        if seen is not None:
+            return seen["retries"] == 0 and seen["delayed"] is None and not (seen["success"] or seen["failure"])
+        return e.get("retry", 0) == 0
+    if prev.get("rec") is None:
+        return False
+    if seen is not None:
+        return seen == prev["rec"]
+    return e.get("retry") == prev["rec"]["retries"] and e.get("started") == prev["rec"]["started"]
+
+
 def oracle_sequence(l: dict, default_errors: str, default_backoff: int, events: list[dict],
                     from_scratch: bool = True) -> list[tuple[str, str]]:
     """A whole observed history of one handler (one retry series): events are
-    {"ev": "attempt", time, started, retry, invoked, x, end, merged, out, rec} | {"ev": "idle", time, done} |
-    {"ev": "restarted", time}."""
+    {"ev": "attempt", time, started, retry, invoked, x, end, merged, out, rec[, seen]} |
+    {"ev": "idle", time, done[, seen]} | {"ev": "skipped", time} | {"ev": "restarted", time}.
+    Every clause of the property is checked on every history. A failure of a whole-history clause at a
+    point where the handler was shown a record that does not continue its own last attempt (stale event
+    body, lost patch, kill between the handler call and the patch) is reported under the signature of
+    the known finding C11-F2; everywhere else it is a plain violation."""
     bad: list[tuple[str, str]] = []
     atts = [e for e in events if e["ev"] == "attempt"]
     inv = [a for a in atts if a["invoked"]]
@@ -411,33 +435,59 @@ def oracle_sequence(l: dict, default_errors: str, default_backoff: int, events: 
         bad += oracle_attempt(l, default_errors, default_backoff, a)
     if any(a["rec"] is None for a in atts):
         return bad
-    if not all(e.get("view", 0) == 0 and e.get("stored", True) for e in events):
-        # The environment showed the operator a stale body, lost a patch or killed it between the
-        # handler call and the patch: the whole-history clauses cannot hold for a non-transactional
-        # "call, then patch" (the handler is re-invoked on the record it is shown). What must still
-        # hold is checked per attempt above: limits and delays against the record that was shown.
-        return bad
     N, T = l.get("retries"), l.get("timeout")
     mode = effective_mode(l, default_errors)
+    # where was the chain of records broken?
+    broken_upto: list[bool] = []          # broken_upto[i]: some link up to attempt i is broken
+    link_ok: list[bool] = []
+    prev = None
+    anyb = False
+    for a in atts:
+        ok = continues(prev, a) if (prev is not None or from_scratch) else True
+        link_ok.append(ok)
+        anyb = anyb or not ok
+        broken_upto.append(anyb)
+        prev = a
+
+    def report(shape: str, msg: str, broken: bool) -> None:
+        if broken:
+            bad.append((F2_SHAPE, f"[{shape}] {msg} — the handler had been shown a record that does not continue its "
+                        "last attempt (stale body / lost patch / kill between call and patch)"))
+        else:
+            bad.append((shape, msg))
+
     if N is not None and len(inv) > max(N, 0):
-        bad.append(("more-invocations-than-retries", f"{len(inv)} invocations with retries={N}"))
+        k = atts.index(inv[max(N, 0)])
+        report("more-invocations-than-retries", f"{len(inv)} invocations with retries={N}", broken_upto[k])
     if inv and T is not None:
         late = [a for a in inv if a["time"] - inv[0]["time"] > T]
         if late:
-            bad.append(("invocation-later-than-timeout", f"an invocation started {late[0]['time'] - inv[0]['time']} "
-                        f"ticks after the first one, timeout={T}"))
+            report("invocation-later-than-timeout", f"an invocation started {late[0]['time'] - inv[0]['time']} "
+                   f"ticks after the first one, timeout={T}", broken_upto[atts.index(late[0])])
     if from_scratch:
         for i, a in enumerate(inv):
             if a["retry"] != i:
-                bad.append(("retry-kwarg-sequence", f"invocation #{i} got retry={a['retry']}"))
+                report("retry-kwarg-sequence", f"invocation #{i} got retry={a['retry']}", broken_upto[atts.index(a)])
                 break
         # failed for good BY RETRIES only after N invocations of its own
         done_inv = 0
-        for a in atts:
+        for k, a in enumerate(atts):
             done_inv += 1 if a["invoked"] else 0
             if a["out"]["exc"] == "retries" and N is not None and done_inv < N:
-                bad.append(("failed-by-retries-too-early", f"recorded as failed by retries={N} after only {done_inv} "
-                            "invocation(s)"))
+                report("failed-by-retries-too-early", f"recorded as failed by retries={N} after only {done_inv} "
+                       "invocation(s)", broken_upto[k])
+                break
+        # "timeout=T … after the FIRST one": failed by timeout only after a first invocation
+        for k, a in enumerate(atts):
+            if a["invoked"]:
+                break
+            if a["out"]["exc"] == "timeout" and T is not None and T > 0:
+                if broken_upto[k]:
+                    report("timed-out-before-first-invocation", "failed by timeout without a first invocation", True)
+                else:
+                    bad.append((F3_SHAPE, f"recorded as failed by timeout={T} at {a['time']} ({a['time'] - a['started']} ticks "
+                                "after its record was created) without ever having been invoked: the timeout is "
+                                "counted from the creation of the record, not from the first attempt"))
                 break
     for e in events:
         if e["ev"] == "idle" and e.get("rec_before") is not None and e.get("rec_after") != e.get("rec_before"):
@@ -445,9 +495,10 @@ def oracle_sequence(l: dict, default_errors: str, default_backoff: int, events: 
                         f"changed: {e['rec_before']} -> {e['rec_after']}"))
             break
     # spacing and finality, over consecutive attempts
-    for a, b in zip(atts, atts[1:]):
+    for k, (a, b) in enumerate(zip(atts, atts[1:])):
+        brk = not link_ok[k + 1]
         if a["out"]["final"] or a["rec"]["success"] or a["rec"]["failure"]:
-            bad.append(("attempt-after-final", f"another attempt at {b['time']} after a final outcome at {a['time']}"))
+            report("attempt-after-final", f"another attempt at {b['time']} after a final outcome at {a['time']}", brk)
             continue
         if not a["invoked"]:
             continue
@@ -458,29 +509,31 @@ def oracle_sequence(l: dict, default_errors: str, default_backoff: int, events: 
         elif x[0] == "arbitrary" and mode == "temporary":
             need = effective_backoff(l, default_backoff)
         if need is not None and b["time"] < a["end"] + need:
-            bad.append(("retried-too-soon", f"{x[0]} error at {a['end']} asked for {need} ticks, "
-                        f"next attempt already at {b['time']}"))
-    # sleeping cycles must not be due; awake ones are attempts by construction;
+            report("retried-too-soon", f"{x[0]} error at {a['end']} asked for {need} ticks, "
+                   f"next attempt already at {b['time']}", brk)
+    # sleeping cycles must not be due; awake ones are attempts by construction (or, under a lifecycle
+    # that runs one handler per cycle, "skipped": the property does not say which due handler runs first);
     # "after which it is recorded as failed for good": when outcomes are merged at once and no
     # sub-handlers are pending, a cycle at runtime >= T must find the handler finished
     last = None
     plain = True
     for e in events:
-        if e["ev"] == "idle" and not e["done"] and T is not None and plain and atts and e["time"] - atts[0]["started"] >= T \
-                and last is not None:
-            bad.append(("sleeps-past-timeout", f"at {e['time']} the handler is {e['time'] - atts[0]['started']} ticks old "
-                        f"(timeout={T}), not finished and not due although nothing delayed the merge of its outcomes"))
         if e["ev"] == "attempt":
-            plain = plain and e["merged"] == e["end"] and not (e["invoked"] and e["x"][0] == "children")
-        if e["ev"] == "attempt":
+            plain = plain and (e["merged"] == e["end"] or e["out"]["final"]) and not (e["invoked"] and e["x"][0] == "children")
             last = e
-        elif e["ev"] == "idle" and last is not None and not e["done"]:
+            continue
+        if e["ev"] != "idle" or last is None:
+            continue
+        brk = e.get("seen") is not None and e["seen"] != last["rec"]
+        if not e["done"] and T is not None and plain and e["time"] - last["rec"]["started"] >= T:
+            report("sleeps-past-timeout", f"at {e['time']} the handler is {e['time'] - last['rec']['started']} ticks old "
+                   f"(timeout={T}), not finished and not due although nothing delayed the merge of its outcomes", brk)
+        if not e["done"]:
             d = last["rec"]["delayed"]
             if d is None or e["time"] >= d:
-                bad.append(("due-handler-skipped", f"the handler was due at {d} but skipped at {e['time']}"))
-        elif e["ev"] == "idle" and e["done"] and last is not None:
-            if not (last["rec"]["success"] or last["rec"]["failure"]):
-                bad.append(("unfinished-reported-done", "handler counted as done without a final record"))
+                report("due-handler-skipped", f"the handler was due at {d} but skipped at {e['time']}", brk)
+        elif not (last["rec"]["success"] or last["rec"]["failure"]):
+            report("unfinished-reported-done", "handler counted as done without a final record", brk)
     return bad
 
 
@@ -508,6 +561,12 @@ def oracle_timer_life(l: dict, series: list[list[dict]]) -> list[tuple[str, str]
 def signature(shape: str, site: str) -> dict:
     if shape == F1_SHAPE:
         return {"site": "daemons._timer", "shape": F1_SHAPE}
+    if shape == F2_SHAPE:
+        return {"site": "processing.process_changing_cause", "shape": F2_SHAPE}
+    if shape == F3_SHAPE:
+        return {"site": "execution.execute_handler_once", "shape": F3_SHAPE}
+    if shape == F4_SHAPE:
+        return {"site": "daemons.spawn_daemons", "shape": F4_SHAPE}
     return {"site": site, "shape": shape}
 
 
@@ -833,7 +892,7 @@ def gen_plan(rng: random.Random, n: int = 12, long: bool = False) -> list:
 
 
 def gen_history(rng: random.Random, kind: str | None = None) -> dict:
-    kind = kind or rng.choice(["change"] * 5 + ["pair"] * 2 + ["sub"] * 2 + ["activity", "daemon", "timer"])
+    kind = kind or rng.choice(["change"] * 5 + ["pair"] * 2 + ["sub"] * 2 + ["activity", "daemon", "timer", "timer", "respawn"])
     long = rng.random() < 0.3
     if long:
         # same kinds, but ages/downtimes/delays around and beyond whole days and fractional timeouts
@@ -848,7 +907,7 @@ def _gen_history(rng: random.Random, kind: str, gen_limits: Any, gen_script: Any
     h: dict[str, Any] = {"kind": kind, "flavour": flavour, "storage": rng.choice(["smart", "annotations", "status"]),
                          "default_backoff": rng.choice([DEFAULT_BACKOFF, DEFAULT_BACKOFF, 3 * TPS, TPS]),
                          "t0": rng.choice([0, Q, 5 * TPS, 1000 * TPS + 48])}
-    inmem = kind in ("activity", "daemon", "timer")
+    inmem = kind in ("activity", "daemon", "timer", "respawn")
     if kind == "sub":
         plim = gen_limits(rng) if flavour == "long" and rng.random() < 0.7 else rng.choice([{}, {}, gen_limits(rng)])
         h["handlers"] = [{"id": "p", "limits": plim, "script": []},
@@ -879,9 +938,23 @@ def _gen_history(rng: random.Random, kind: str, gen_limits: Any, gen_script: Any
         h["interval"] = rng.choice([TPS, 4 * TPS, 10 * TPS])
         h["sharp"] = rng.choice([False, True])
         h["handlers"][0]["script"] = [s for _ in range(3) for s in gen_script(rng, False)][:12]
+        if rng.random() < 0.4:
+            # idle= as well: the series' record is created before the idle wait
+            h["idle"] = rng.choice([Q, TPS, 2 * TPS, 5 * TPS, 10 * TPS])
+            if rng.random() < 0.5:
+                h["handlers"][0]["limits"]["timeout"] = rng.choice([TPS, 2 * TPS, 5 * TPS, 8 * TPS])
+    if kind == "respawn":
+        h["interval"] = rng.choice([TPS, 4 * TPS])
+        h["sharp"] = rng.choice([False, True])
+        h["handlers"][0]["script"] = [s for _ in range(3) for s in gen_script(rng, False)][:12]
+        h["handlers"][0]["script"] = [[x, 0] for x, _ in h["handlers"][0]["script"]]   # no stop in the middle of a call
+        h["tasks"] = [{"live": rng.choice([TPS, 3 * TPS, 6 * TPS, 20 * TPS, 70 * TPS]), "gap": rng.choice([Q, TPS, 5 * TPS])}
+                      for _ in range(rng.choice([2, 2, 3]))]
     if not inmem:
         h["plan"] = gen_plan(rng)
-    if kind in ("change", "pair") and rng.random() < 0.4:
+    if kind == "pair" and rng.random() < 0.4:
+        h["lifecycle"] = "asap"       # kopf's default: one handler per cycle
+    if kind in ("change", "pair", "sub") and rng.random() < 0.4:
         # the adversarial environment: stale event bodies, lost patches, kills between call and patch
         envs = []
         for _ in range(12):
@@ -915,6 +988,7 @@ class ChangeWorld:
         self.limits = {h["id"]: lim_json(h["limits"]) for h in hist["handlers"]}
         self.sub = hist["kind"] == "sub"
         self.subcycles: list[dict] = []
+        self.subrecs: dict[int, list] = {}
         if self.sub:
             self.subs = [mk_handler("changing", h["id"], self.scripts[h["id"]].make_fn(), h["limits"])
                          for h in hist["handlers"][1:]]
@@ -975,8 +1049,6 @@ class ChangeWorld:
         self.cycles += 1
         view, stored = int(envstep.get("view", 0)), bool(envstep.get("stored", True))
         self.kill = envstep.get("kill")
-        if self.sub:
-            view, stored, self.kill = 0, True, None
         # the event body: the current version, or (stale) an older one
         vbody, vwrites = self.versions[max(0, len(self.versions) - 1 - view)]
         self.view_body = vbody if view else self.body
@@ -992,10 +1064,13 @@ class ChangeWorld:
         state = state.with_purpose(reason).with_handlers(self.top)
         pre = {h.id: len(self.scripts[h.id].calls) for h in self.top}
         before = {h.id: rec_of_state(state[h.id]) for h in self.top}
+        awake = {h.id: bool(state[h.id].awakened) for h in self.top}
+        fresh = {h.id: self.fetch(h.id, self.view_body) is None for h in self.top}
         peeks = {h.id: self.scripts[h.id].peek() for h in self.top}
+        lifecycle = K.lifecycles.asap if self.hist.get("lifecycle") == "asap" else K.lifecycles.all_at_once
         try:
             outcomes = await K.execution.execute_handlers_once(
-                lifecycle=K.lifecycles.all_at_once, settings=self.settings, handlers=self.top, cause=cause, state=state,
+                lifecycle=lifecycle, settings=self.settings, handlers=self.top, cause=cause, state=state,
                 extra_context=K.subhandling.subhandling_context)
             state = state.with_outcomes(outcomes)
             merged = now_ticks()
@@ -1007,29 +1082,33 @@ class ChangeWorld:
         # the API server applies the merge-patch to the CURRENT object — unless the patch is lost
         after = merge_patch(copy.deepcopy(self.body), dict(patch))
         self.record_batch(self.top, t, merged, pre, before, peeks, outcomes,
-                          {h.id: state[h.id].finished for h in self.top}, after, views, stored)
+                          {h.id: state[h.id].finished for h in self.top}, after, views, stored, awake)
+        wrote = [h.id for h in self.top if h.id in outcomes or (awake[h.id] and fresh[h.id])]
+        if self.sub:
+            wrote += self.record_subcycles(after, views, stored)
         if stored:
             changed = after != self.body
             self.body = after
-            for h in self.top:
-                if h.id in outcomes:
-                    self.writes[h.id] += 1
+            for hid in wrote:
+                self.writes[hid] += 1
             if changed:
                 self.versions.append((copy.deepcopy(self.body), dict(self.writes)))
-        if self.sub:
-            self.record_subcycles(merged)
         return None if state.done else state.delay
 
     def record_batch(self, handlers: list, t: int, merged: int, pre: dict, before: dict, peeks: dict,
-                     outcomes: dict, finished: dict, after: dict, views: dict, stored: bool) -> None:
+                     outcomes: dict, finished: dict, after: dict, views: dict, stored: bool, awake: dict) -> None:
         clock = t
         for h in handlers:
             calls = self.scripts[h.id].calls[pre[h.id]:]
             if h.id not in outcomes:
                 if calls:
                     self.events[h.id].append({"ev": "called-without-outcome", "time": t})
+                if awake[h.id]:
+                    # awake, but the lifecycle picked another handler for this cycle
+                    self.events[h.id].append({"ev": "skipped", "time": t, "view": views[h.id], "stored": stored})
+                    continue
                 self.events[h.id].append({"ev": "idle", "time": t, "done": bool(finished[h.id]),
-                                          "view": views[h.id], "stored": stored})
+                                          "view": views[h.id], "stored": stored, "seen": before[h.id]})
                 continue
             o = outcomes[h.id]
             call = calls[0] if calls else None
@@ -1040,26 +1119,34 @@ class ChangeWorld:
                 "ev": "attempt", "gate": t, "time": start, "started": before[h.id]["started"], "retry": before[h.id]["retries"],
                 "invoked": bool(call), "calls": len(calls), "retry_kwarg": call["retry"] if call else None,
                 "x": x, "dur": dur, "end": end, "merged": merged, "view": views[h.id], "stored": stored,
+                "seen": before[h.id],
                 "out": out_json(o, bool(call), call["exc"] if call else None), "rec": self.fetch(h.id, after)})
             clock = end
 
-    def record_subcycles(self, merged_parent: int) -> None:
-        # the sub-handlers' batch happened inside the parent's call; its patch went into the same patch
+    def record_subcycles(self, after: dict, views: dict, stored: bool) -> list[str]:
+        """The sub-handlers' batch happened inside the parent's call; its patch went into the same patch.
+        Returns the ids of the sub-handlers whose record the batch wrote."""
+        wrote: list[str] = []
         for sc in self.subcycles:
             st_merged = sc["end"]
-            outcomes_like: dict = {}
             clock = sc["t"]
+            tent = merge_patch(copy.deepcopy(self.view_body), sc["patch"])
+            recs = []
             for h in self.subs:
                 calls = self.scripts[h.id].calls[sc["pre"][h.id]:]
-                rec_after = self.fetch(h.id)
                 rec_before = sc["known"][h.id]
-                changed = rec_after is not None and (rec_before is None or rec_after["retries"] != rec_before["retries"])
+                rec_tent = self.fetch(h.id, tent)
+                changed = rec_tent is not None and rec_tent != rec_before
+                recs.append(rec_tent)
                 if not changed:
                     if calls:
                         self.events[h.id].append({"ev": "called-without-outcome", "time": sc["t"]})
-                    done = bool(rec_after and (rec_after["success"] or rec_after["failure"]))
-                    self.events[h.id].append({"ev": "idle", "time": sc["t"], "done": done})
+                    done = bool(rec_before and (rec_before["success"] or rec_before["failure"]))
+                    self.events[h.id].append({"ev": "idle", "time": sc["t"], "done": done, "view": views[h.id],
+                                              "stored": stored, "seen": rec_before})
                     continue
+                wrote.append(h.id)
+                rec_after = rec_tent
                 call = calls[0] if calls else None
                 start = call["t"] if call else clock
                 end = call["end"] if call else clock
@@ -1067,7 +1154,7 @@ class ChangeWorld:
                 # the outcome object is internal to kopf.execute(); reconstruct its visible part from the record
                 final = bool(rec_after["success"] or rec_after["failure"])
                 delay = None if rec_after["delayed"] is None else rec_after["delayed"] - st_merged
-                msg = self.stored_message(h.id)
+                msg = self.stored_message(h.id, tent)
                 if not final or rec_after["success"]:
                     exc = "none" if rec_after["success"] else "raised"
                 elif "timed out" in msg or "time out" in msg:
@@ -1076,17 +1163,21 @@ class ChangeWorld:
                     exc = "retries"
                 else:
                     exc = "raised"
+                fresh_rec = {"started": sc["t"], "stopped": None, "delayed": None, "retries": 0, "success": False, "failure": False}
                 self.events[h.id].append({
                     "ev": "attempt", "gate": sc["t"], "time": start, "started": (rec_before or rec_after)["started"],
                     "retry": rec_before["retries"] if rec_before else 0, "invoked": bool(call), "calls": len(calls),
                     "retry_kwarg": call["retry"] if call else None, "x": x, "dur": dur, "end": end, "merged": st_merged,
+                    "view": views[h.id], "stored": stored, "seen": rec_before or fresh_rec,
                     "out": {"invoked": bool(call), "final": final, "delay": delay, "exc": exc}, "rec": rec_after,
                     "pi": sc["pi"]})
                 clock = end
+            self.subrecs[sc["pi"]] = recs
         self.subcycles.clear()
+        return wrote
 
-    def stored_message(self, hid: str) -> str:
-        got = self.storage.fetch(key=hid, body=K.bodies.Body(self.body))
+    def stored_message(self, hid: str, body: dict | None = None) -> str:
+        got = self.storage.fetch(key=hid, body=K.bodies.Body(self.body if body is None else body))
         return str((got or {}).get("message") or "")
 
 
@@ -1147,7 +1238,7 @@ def run_change_history(hist: dict) -> dict:
             loop.close()
         asyncio.set_event_loop(None)
         simloop.reset_wall()
-    return {"events": world.events, "limits": world.limits, "cycles": world.cycles,
+    return {"events": world.events, "limits": world.limits, "cycles": world.cycles, "subrecs": world.subrecs,
             "calls": {k: len(s.calls) for k, s in world.scripts.items()}}
 
 
@@ -1246,7 +1337,8 @@ def run_inmem_history(hist: dict) -> dict:
                         handler = mk_handler("daemon", hd["id"], fn, hd["limits"])
                         await K.daemons._daemon(settings=settings, handler=handler, cause=cause)
                     else:
-                        handler = mk_handler("timer", hd["id"], fn, hd["limits"], interval=hist["interval"], sharp=hist.get("sharp"))
+                        handler = mk_handler("timer", hd["id"], fn, hd["limits"], interval=hist["interval"],
+                                             sharp=hist.get("sharp"), idle=hist.get("idle"))
                         await K.daemons._timer(settings=settings, handler=handler, cause=cause,
                                                memory=K.daemons.DaemonsMemory())
                 except BusyLoop:
@@ -1347,6 +1439,80 @@ def run_activity_multi(hist: dict) -> dict:
     return {"events": events, "limits": {hd["id"]: lim_json(hd["limits"]) for hd in hist["handlers"]}, "result": result}
 
 
+def run_respawn_history(hist: dict) -> dict:
+    """A timer through the real spawn_daemons / match_daemons layer: spawned, stopped because its filters
+    stop matching (`match_daemons(handlers=[])`), spawned again, …; one scripted function."""
+    hd = hist["handlers"][0]
+    settings = mk_settings(hist["default_backoff"])
+    script = Script(hd["script"])
+    batches: list[dict] = []
+    spawns: list[int] = []
+    resource = K.references.Resource("kopf.dev", "v1", "kopfexamples", namespaced=True)
+    body = K.bodies.Body({"metadata": {"name": "obj", "namespace": "ns", "uid": "u1"}, "spec": {}})
+    handler = mk_handler("timer", hd["id"], script.make_fn(), hd["limits"], interval=hist["interval"], sharp=hist.get("sharp"))
+    info: dict[str, Any] = {}
+
+    async def main() -> None:
+        t0 = sec(hist.get("t0", 0))
+        if t0:
+            await asyncio.sleep(t0)
+        indexers = K.indexing.OperatorIndexers()
+        memory = K.daemons.DaemonsMemory()
+        memory.live_fresh_body = body
+        cause = K.causes.SpawningCause(resource=resource, indices=indexers.indices, logger=K.logger, memo=K.ephemera.Memo(),
+                                       body=body, patch=K.patches.Patch(), reset=False)
+        with spy_batches(batches, None, lambda: len(script.calls)):
+            try:
+                for task in hist["tasks"]:
+                    if hd["id"] in memory.forever_stopped:
+                        break
+                    memory.live_fresh_body = body
+                    spawns.append(now_ticks())
+                    await K.daemons.spawn_daemons(settings=settings, handlers=[handler], daemons=memory.running_daemons,
+                                                  cause=cause, memory=memory)
+                    await asyncio.sleep(sec(task["live"]))
+                    # the object stops matching the timer's filters …
+                    for _ in range(50):
+                        await K.daemons.match_daemons(settings=settings, handlers=[], daemons=memory.running_daemons)
+                        if not memory.running_daemons:
+                            break
+                        await asyncio.sleep(sec(Q))
+                    info["left_running"] = bool(memory.running_daemons)
+                    # … and matches again after the gap
+                    await asyncio.sleep(sec(task["gap"]))
+                info["forever_stopped"] = hd["id"] in memory.forever_stopped
+                await K.daemons.stop_daemons(settings=settings, daemons=memory.running_daemons,
+                                             reason=K.stoppers.DaemonStoppingReason.OPERATOR_EXITING)
+                await asyncio.sleep(sec(Q))
+            except BusyLoop:
+                raise
+            except Exception as e:
+                raise Escaped("spawn_daemons/match_daemons/_timer", e) from e
+
+    simloop.run_sim(main, wall_limit=120.0)
+    hid = hd["id"]
+    tasks: list[list[dict]] = [[] for _ in spawns]
+    ci = 0
+    for b in batches:
+        k = max(i for i, t in enumerate(spawns) if t <= b["t"])
+        if hid not in b["outcomes"]:
+            before = b["before"][hid]
+            tasks[k].append({"ev": "idle", "time": b["t"], "done": bool(before["success"] or before["failure"])})
+            continue
+        calls = script.calls[b["c0"]:b["c1"]]
+        call = calls[0] if calls else None
+        ci += len(calls)
+        o = b["outcomes"][hid]
+        tasks[k].append({"ev": "attempt", "gate": b["t"], "time": b["t"], "started": b["before"][hid]["started"],
+                         "retry": b["before"][hid]["retries"], "invoked": bool(call), "calls": len(calls),
+                         "retry_kwarg": call["retry"] if call else None, "x": call["x"] if call else ["ok"],
+                         "dur": call["dur"] if call else 0, "end": b["end"], "merged": b.get("merged", b["end"]),
+                         "seen": b["before"][hid], "out": out_json(o, bool(call), call["exc"] if call else None),
+                         "rec": b.get("after", {}).get(hid)})
+    return {"tasks": tasks, "spawns": spawns, "limits": lim_json(hd["limits"]), "info": info,
+            "stray_calls": len(script.calls) - ci}
+
+
 def abs_steps(events: list[dict]) -> list:
     steps = []
     for e in events:
@@ -1357,6 +1523,8 @@ def abs_steps(events: list[dict]) -> list:
             steps.append(["cycle_at", e["time"], 0, ["ok"], 0, 0, e.get("view", 0), e.get("stored", True)])
         elif e["ev"] == "restarted":
             steps.append(["restart_at", e["time"]])
+        elif e["ev"] == "skipped":
+            steps.append(["skipped_at", e["time"], e.get("view", 0), e.get("stored", True)])
     return steps
 
 
@@ -1367,7 +1535,7 @@ def impl_events(events: list[dict]) -> list:
             out.append({"ev": "attempt", "time": e["time"], "retry": e["retry"], "out": e["out"], "end": e["end"],
                         "merged": e["merged"], "rec": e["rec"]})
         else:
-            out.append({k: v for k, v in e.items() if k not in ("pi", "view", "stored", "rec_before", "rec_after")})
+            out.append({k: v for k, v in e.items() if k not in ("pi", "view", "stored", "rec_before", "rec_after", "seen")})
     return out
 
 
@@ -1395,7 +1563,7 @@ def _history_checks(hist: dict, kind: str, db: int, env: dict) -> list[dict]:
         obs = run_activity_multi(hist) if multi else run_change_history(hist)
         for hid, events in obs["events"].items():
             l = obs["limits"][hid]
-            first = next((e for e in events if e["ev"] in ("attempt", "idle")), None)
+            first = next((e for e in events if e["ev"] in ("attempt", "idle", "skipped")), None)
             if first is None:
                 continue
             bad = oracle_sequence(l, "temporary", db, events)
@@ -1424,6 +1592,41 @@ def _history_checks(hist: dict, kind: str, db: int, env: dict) -> list[dict]:
             if failed != (obs["result"].get("raised") == "ActivityError"):
                 checks.append({"hid": "verdict", "limits": {}, "events": [], "request": None, "impl": None,
                                "oracle": [("activity-verdict", "ActivityError raised iff a handler failed for good — violated")]})
+    elif kind == "respawn":
+        obs = run_respawn_history(hist)
+        l = obs["limits"]
+        life = [e for task in obs["tasks"] for e in task]
+        bad: list[tuple[str, str]] = []
+        failed_at = None
+        for task in obs["tasks"]:
+            atts = [e for e in task if e["ev"] == "attempt"]
+            inv = [e for e in atts if e["invoked"]]
+            if failed_at is not None and inv:
+                bad.append((F4_SHAPE, f"the timer was recorded as failed for good at {failed_at}; after a filter mismatch and "
+                            f"re-match it was spawned again and its function invoked at {inv[0]['time']} with "
+                            f"retry={inv[0]['retry_kwarg']}"))
+                break
+            # inside one task everything the property says about a timer's life
+            series: list[list[dict]] = []
+            for e in task:
+                if e["ev"] == "attempt" and e["retry"] == 0 and (not series or any(x["ev"] == "attempt" for x in series[-1])):
+                    series.append([])
+                if not series:
+                    series.append([])
+                series[-1].append(e)
+            for sv in series:
+                bad += oracle_sequence(l, "temporary", db, sv)
+            bad += oracle_timer_life(l, series)
+            if failed_at is None and atts and atts[-1].get("rec") and atts[-1]["rec"]["failure"]:
+                failed_at = atts[-1]["merged"]
+        tasks_req = [[obs["spawns"][k], [[e["x"], e["dur"]] if e["ev"] == "attempt" else [["ok"], 0] for e in task]]
+                     for k, task in enumerate(obs["tasks"])]
+        checks.append({"hid": f"{hist['handlers'][0]['id']}#respawn", "limits": l, "events": [],
+                       "request": ["C11.respawn", env, l, hist["interval"], bool(hist.get("sharp")), tasks_req],
+                       "impl": impl_events(life), "oracle": bad})
+        if obs["stray_calls"]:
+            checks.append({"hid": "stray", "limits": l, "events": [], "request": None, "impl": None,
+                           "oracle": [("call-outside-execution", "the function was called outside a recorded execution")]})
     else:
         obs = run_inmem_history(hist)
         l = obs["limits"]
@@ -1444,8 +1647,9 @@ def _history_checks(hist: dict, kind: str, db: int, env: dict) -> list[dict]:
             if not atts:
                 continue
             script = [[e["x"], e["dur"]] for e in atts]
+            held = atts[0]["time"] != atts[0]["started"]      # a timer's idle wait sits between the two
             checks.append({"hid": f"{hist['handlers'][0]['id']}#{si}", "limits": l, "events": events,
-                           "request": ["C11.loop", env, l, atts[0]["started"], script],
+                           "request": None if held else ["C11.loop", env, l, atts[0]["started"], script],
                            # the model's loop has no idle executions: an observed one is a divergence
                            "impl": impl_events(events), "oracle": bad})
         if kind == "timer":
@@ -1453,7 +1657,8 @@ def _history_checks(hist: dict, kind: str, db: int, env: dict) -> list[dict]:
             if life:
                 script = [[e["x"], e["dur"]] if e["ev"] == "attempt" else [["ok"], 0] for e in life]
                 checks.append({"hid": f"{hist['handlers'][0]['id']}#life", "limits": l, "events": [],
-                               "request": ["C11.timer", env, l, hist["interval"], bool(hist.get("sharp")), life[0]["time"], script],
+                               "request": ["C11.timer", env, l, hist["interval"], bool(hist.get("sharp")),
+                                           hist.get("t0", 0) + (hist.get("idle") or 0), hist.get("t0", 0), script],
                                "impl": impl_events(life), "oracle": oracle_timer_life(l, obs["series"])})
         if obs["stray_calls"]:
             checks.append({"hid": "stray", "limits": l, "events": [], "request": None, "impl": None,
@@ -1479,11 +1684,10 @@ def sub_parent_checks(hist: dict, obs: dict) -> list[dict]:
         if e["ev"] != "attempt" or not e["invoked"]:
             continue
         pi += 1
-        # sub records right after this parent's call
-        recs = []
-        for hid in subs:
-            later = [s for s in obs["events"][hid] if s["ev"] == "attempt" and s["pi"] <= pi]
-            recs.append(later[-1]["rec"] if later else None)
+        # the sub-handlers' records as kopf.execute() had them right after its batch in this call
+        recs = (obs.get("subrecs") or {}).get(pi)
+        if recs is None:
+            continue
         if all(r is not None for r in recs):
             out.append({"hid": "p#children", "limits": {}, "events": [], "oracle": [],
                         "request": ["C11.children", recs, e["end"]], "impl": e["x"]})
